@@ -306,6 +306,30 @@ def run(repo: Repo, rep: Report, tier: str) -> None:
                           f"built from {[p_[:40] for p_ in parts]} only: every iteration that declares the same name produces the same node id, and the copies collapse into one node", f.loc(c))
     rep.floor("C16-R4", "explicit node ids in the lowerer", n_exp, 1)
 
+    # ---------------- R11 --------------------------------------------------------------
+    rep.rule("C16-R11", "inside a function body the iterator (and what the body declares) shadows a parameter of the same name: identifiers are looked up in the parameter table "
+             "first, so lower_for_stmt takes the iteration's names out of that table for the duration of the loop and puts the table back afterwards — otherwise "
+             "`func f(int i, ...) { for i in 0..3 { ... i ... } }` lowers every iteration with the argument")
+    li11 = repo.func("ExpressionLowerer.lower_identifier")
+    first_tbl = None
+    for n11 in walk_local(li11.node):
+        if isinstance(n11, ast.If) and isinstance(n11.test, ast.Compare) and isinstance(n11.test.ops[0], ast.In):
+            first_tbl = norm(n11.test.comparators[0])
+            break
+    lf11 = repo.func("StatementLowerer.lower_for_stmt")
+    loops11 = [n for n in walk_local(lf11.node) if isinstance(n, ast.For) and "iteration_values" in norm(n.iter)]
+    if first_tbl is None or not loops11:
+        raise AnalysisError("C16-R11: lower_identifier's first table or the iteration loop was not found")
+    if first_tbl == "self.parent.param_values":
+        stores11 = [n for n in walk_local(lf11.node) if isinstance(n, ast.Assign) and norm(n.targets[0]) == first_tbl]
+        hide = [n for n in stores11 if n.lineno < loops11[0].lineno and isinstance(n.value, (ast.DictComp,)) and any(isinstance(c, ast.Compare) and isinstance(c.ops[0], ast.NotIn) for c in ast.walk(n.value))]
+        back = [n for n in stores11 if n.lineno > (loops11[0].end_lineno or 0) and isinstance(n.value, ast.Name)]
+        ok11 = bool(hide) and bool(back)
+        rep.check(ok11, "C16-R11", "lower_for_stmt hides the iteration's names from the parameter table and restores it", "filtered before the loop, restored after" if ok11 else
+                  "the parameter table is left as it is: an iterator or body-local named like a parameter is read as the argument in every iteration", lf11.loc(loops11[0]))
+    else:
+        rep.ok("C16-R11", "lower_identifier looks declared names up before parameters", first_tbl, li11.loc())
+
     # ---------------- R5 ---------------------------------------------------------------
     rep.rule("C16-R5", "the transformer takes start and stop from the first and second bound, the step from the bound after STEP_KW "
              "(default 1), list values in source order, and passes them to ForStmt under the same names")
